@@ -761,6 +761,9 @@ def _eval_guard(sx: SymX, g: Formula, facts: dict, internal: Term, depth: int):
     env = {}
     for key in atoms_of(g):
         t = sx.atoms.get(key)
+        if t is not None and ("truth", t) in facts:
+            env[key] = facts[("truth", t)]
+            continue
         if t is None or not (t[0] == "cmp" and t[1] == "in" and t[3] == internal):
             return None
         name = _concretise(sx, t[2], facts, internal, depth + 1)
@@ -800,6 +803,19 @@ def _name_symbols(sx: SymX, t: Term, internal: Term, depth: int = 0) -> list[Ter
             add(_name_symbols(sx, x, internal, depth + 1))
     elif t[0] != "const":
         out.append(t)
+    return out
+
+
+def _all_guard_atoms(sx: SymX, t: Term, internal: Term, depth: int = 0) -> set[str]:
+    """Atoms of all guards inside a name, including those inside the names tested for membership."""
+    out: set[str] = set()
+    if depth > 8:
+        return out
+    for key in _guard_atoms(t):
+        out.add(key)
+        a = sx.atoms.get(key)
+        if a is not None and a[0] == "cmp" and a[1] == "in" and a[3] == internal:
+            out |= _all_guard_atoms(sx, a[2], internal, depth + 1)
     return out
 
 
@@ -960,10 +976,16 @@ def _check_adjusted(sx: SymX, name: Term, P: Term, I: Term, guard: Formula = TRU
     universe = [(p, n), (n,)]
     if a is not None:
         universe += [(p, n, a), (n, a)]
+    # an empty prefix may be tested for explicitly: no internal module starts with '.'
+    tests_prefix = any(sx.atoms.get(k) == P for k in _all_guard_atoms(sx, name, I))
+    if tests_prefix:
+        universe = universe + [("truth", P)]
     for values in itertools.product([False, True], repeat=len(universe)):
         facts = dict(zip(universe, values))
         if a is not None and facts[(p, n, a)] and not facts[(p, n)]:
             continue  # a scanned module's package is scanned as well
+        if tests_prefix and not facts[("truth", P)] and (facts[(p, n)] or a is not None and facts[(p, n, a)]):
+            continue  # with an empty prefix `prefix.name` starts with '.', which no module name does
         x = (p, n) if facts[(p, n)] else (n,)
         expected = x
         if a is not None:
@@ -983,7 +1005,7 @@ def _check_adjusted(sx: SymX, name: Term, P: Term, I: Term, guard: Formula = TRU
         if got is None:
             return None, f"cannot evaluate `{show(name, 140)}` for a given set of internal modules"
         if got != expected:
-            inside = [_show_name(k) for k, v in facts.items() if v]
+            inside = [_show_name(k) for k, v in facts.items() if v and k[0] != "truth"]
             if P not in [q[1] for q in got if q[0] == "s"] and not any(P in leaves(t[2], ("param",)) for t in sx.atoms.values() if t[0] == "cmp" and t[1] == "in" and t[3] == I and any(y == n[1] for y in subterms(t[2]))):
                 why = f"its name never passes the root-prefix adjustment: imports written relative to module_path's parent no longer resolve when a sub-directory is scanned"
             elif a is not None and len(got) < len(expected):
